@@ -5,7 +5,7 @@ from xdsl.context import Context
 from xdsl.dialects import arith, builtin, scf
 from xdsl.dialects.builtin import IndexType, MemRefType
 from xdsl.dialects.linalg import GenericOp
-from xdsl.dialects.memref import CopyOp
+from xdsl.dialects.memref import CopyOp, DeallocOp
 from xdsl.dialects.scf import ForOp
 from xdsl.ir import Block, Operation, OpResult, Region, SSAValue
 from xdsl.irdl import Operand
@@ -22,7 +22,7 @@ from snaxc.accelerators.acc_context import AccContext
 from snaxc.dialects.dart import StreamingRegionOpBase
 from snaxc.dialects.pipeline import IndexOp, PipelineOp, StageOp, YieldOp
 from snaxc.dialects.snax import ClusterSyncOp
-from snaxc.transforms.insert_sync_barrier import get_view_source
+from snaxc.transforms.insert_sync_barrier import get_uses_through_views, get_view_source
 from snaxc.util.dispatching_rules import dispatch_to_compute, dispatch_to_dm
 
 
@@ -33,6 +33,15 @@ def get_constant_index(value: SSAValue) -> int | None:
     if not isinstance(attr := value.op.value, builtin.IntegerAttr):
         return None
     return attr.value.data
+
+
+def get_outputs(op: Operation) -> Sequence[SSAValue]:
+    """The buffers a stage operation writes."""
+    if isinstance(op, CopyOp):
+        return (op.destination,)
+    if isinstance(op, GenericOp | StreamingRegionOpBase):
+        return tuple(op.outputs)
+    return ()
 
 
 @dataclass
@@ -141,6 +150,20 @@ class ConstructPipeline(RewritePattern):
                     if isinstance(operand.type, MemRefType) and not op.body.block.is_ancestor(operand.owner):
                         if sources.setdefault(get_view_source(operand), operand) is not operand:
                             return
+
+        # iteration i works on copy (i mod 2) of a buffer that is passed on between two stages: behind the
+        # loop the original allocation only holds the data of the last iteration for odd trip counts
+        written = {o for stage in stages for operation in stage for o in get_outputs(operation)}
+        for stage in stages:
+            for operation in stage:
+                for operand in operation.operands:
+                    if operand in written and operand not in get_outputs(operation):
+                        if isinstance(operand.type, MemRefType) and not op.body.block.is_ancestor(operand.owner):
+                            if any(
+                                not isinstance(use.operation, DeallocOp) and not op.is_ancestor(use.operation)
+                                for use in get_uses_through_views(get_view_source(operand))
+                            ):
+                                return
 
         # the unrolled pipeline is only correct for loops with lb 0 and step 1, that
         # run for at least (nb_stages - 1) iterations to fill up the pipeline
